@@ -15,8 +15,13 @@ static const struct shape COVER[] = {
     { EC_BACKEND_LIBERASURECODE_RS_VAND, 10, 4, 4 }, { EC_BACKEND_FLAT_XOR_HD, 10, 5, 3 },
     { EC_BACKEND_ISA_L_RS_CAUCHY, 4, 2, 2 }, { EC_BACKEND_FLAT_XOR_HD, 12, 6, 4 },
     { EC_BACKEND_LIBERASURECODE_RS_VAND, 16, 16, 16 }, { EC_BACKEND_NULL, 2, 1, 1 },
+    /* thorough tier only (entries 10..) */
+    { EC_BACKEND_LIBERASURECODE_RS_VAND, 2, 1, 1 }, { EC_BACKEND_LIBERASURECODE_RS_VAND, 3, 3, 3 }, { EC_BACKEND_LIBERASURECODE_RS_VAND, 1, 31, 31 },
+    { EC_BACKEND_LIBERASURECODE_RS_VAND, 31, 1, 1 }, { EC_BACKEND_LIBERASURECODE_RS_VAND, 20, 12, 12 }, { EC_BACKEND_LIBERASURECODE_RS_VAND, 5, 3, 3 },
+    { EC_BACKEND_FLAT_XOR_HD, 5, 5, 3 }, { EC_BACKEND_FLAT_XOR_HD, 6, 6, 4 }, { EC_BACKEND_FLAT_XOR_HD, 20, 6, 4 }, { EC_BACKEND_FLAT_XOR_HD, 15, 6, 3 },
+    { EC_BACKEND_ISA_L_RS_VAND, 10, 4, 4 }, { EC_BACKEND_ISA_L_RS_CAUCHY, 3, 3, 3 },
 };
-#define NCOVER ((int)(sizeof COVER / sizeof COVER[0]))
+#define NCOVER (strcmp(vh_tier(), "thorough") ? 10 : (int)(sizeof COVER / sizeof COVER[0]))
 static const char *ENVS[] = { NULL, "1", "", "0", "yes" };
 
 /* one reusable read-only slot for the mutant under test, plus one for a second damaged fragment */
